@@ -3,7 +3,8 @@
 import json, re, shutil, subprocess, sys
 from pathlib import Path
 P = sys.argv[1]
-W = Path(f"/tmp/b/{P}/verif")
+import os
+W = Path(f"/tmp/b/{os.environ.get('MERGE_WS', P)}/verif")
 V = Path("/verif")
 copied = []
 def cp(src, dst):
